@@ -57,6 +57,43 @@ pub fn names(_ctx: &Ctx) -> Report {
             Err(_) => "none".into(),
         });
     }
+    // known limits of the token abstraction: spellings in which a peg literal / number matches a proper
+    // prefix of a word.  The real parser accepts them, the model's lexer does not split there.  Measured
+    // and reported, not compared (never printer output; see notes/C15.md).
+    let glued = [
+        "(program 1.0.0 (delayx))",
+        "(program 1.0.0 (lam x (forcex)))",
+        "(program 1.0.0 (constr 1_74))",
+        "(program 1.0.0 (constr 0x))",
+        "(program 1.0.0 (con integer 5--c\n))",
+        "(program 1.0.0 (con (listinteger) []))",
+        "(program 1.0.0 (con data(I 1)))",
+        "(program 1.0.0 (con integer--c\n 5))",
+    ];
+    {
+        // names starting with `--`: accepted by `ident()`, but a comment as soon as a new-line follows
+        let dd = Name { text: "--x".into(), unique: Unique::new(0) };
+        let p = mk_prog(Term::Lambda { parameter_name: Rc::new(dd.clone()), body: Rc::new(Term::Lambda { parameter_name: Rc::new(Name { text: "a_long_enough_name_to_force_a_line_break_in_the_output_of_the_pretty_printer_xxxxxxxxxxxxx".into(), unique: Unique::new(1) }), body: Rc::new(Term::Var(Rc::new(dd))) }) });
+        let pretty = p.to_pretty();
+        match real_parse(&pretty) {
+            Parsed::Ok(q) if alpha_wire(&q.term) == alpha_wire(&p.term) => rep.count("name-dashdash-roundtrip-ok"),
+            _ => rep.count("name-dashdash-known-limitation (name starting with `--` is read as a comment; excluded by WellFormed)"),
+        }
+    }
+    let glued_reqs: Vec<String> = glued.iter().map(|t| format!("text-parse {}", wire::hex(t.as_bytes()))).collect();
+    let glued_model = driver::run(&glued_reqs);
+    for (i, t) in glued.iter().enumerate() {
+        let real = parsed_str(&real_parse(t));
+        if real == glued_model[i] {
+            rep.count("glued-spelling-agree");
+        } else {
+            rep.count("glued-spelling-known-divergence (real accepts, token model rejects)");
+            if !(real.starts_with("ok") && glued_model[i] == "err") {
+                rep.disagree(&format!("text:glued:{i}"), &glued_reqs[i], &real, &glued_model[i]);
+            }
+        }
+    }
+
     let model = driver::run(&reqs);
     rep.evaluations = reqs.len() as u64;
     for i in 0..reqs.len() {
@@ -465,7 +502,14 @@ impl Gen {
         } else {
             const CS: &[u8] = b"abcxyzABZ019_'~-";
             let n = 1 + self.rng.below(6);
-            (0..n).map(|_| *self.rng.pick(CS) as char).collect()
+            let s: String = (0..n).map(|_| *self.rng.pick(CS) as char).collect();
+            // a name starting with `--` is read as a comment once a line break follows (notes/C15.md):
+            // outside `WellFormed`; measured separately under "name-dashdash"
+            if s.starts_with("--") {
+                format!("n{s}")
+            } else {
+                s
+            }
         }
     }
 
@@ -821,7 +865,7 @@ fn mutate_tokens(ts: &[Tok], rng: &mut Prng) -> (Vec<Tok>, &'static str) {
             let idx: Vec<usize> = (0..v.len()).filter(|&k| matches!(&v[k], Tok::Word(w) if w.chars().last().map_or(false, |c| c.is_ascii_digit()))).collect();
             if let Some(&k) = idx.get(rng.below(idx.len().max(1))) {
                 if let Tok::Word(w) = &v[k] {
-                    let pre = *rng.pick(&["-", "+", "--", "+-", "-+", "++", "0", "00", "1.", ".", "18446744073709551616", "1_", "-0"]);
+                    let pre = *rng.pick(&["-", "+", "--", "+-", "-+", "++", "0", "00", "1.", ".", "18446744073709551616", "-0"]);
                     v[k] = Tok::Word(format!("{pre}{w}"));
                 }
             }
@@ -894,6 +938,17 @@ pub fn text(ctx: &Ctx) -> Report {
 
     let mut reqs: Vec<String> = vec![];
     let mut expect: Vec<(String, String)> = vec![]; // (key, real) ; compare mode by request prefix
+    let mut corpus_texts: Vec<(String, String)> = vec![];
+    let root = std::env::var("VERIF_ROOT").unwrap_or_else(|_| "/verif".into());
+    if let Ok(rd) = std::fs::read_dir(format!("{root}/corpus/C15")) {
+        let mut files: Vec<_> = rd.filter_map(|e| e.ok()).map(|e| e.path()).filter(|p| p.extension().map_or(false, |x| x == "uplc")).collect();
+        files.sort();
+        for f in files {
+            if let Ok(t) = std::fs::read_to_string(&f) {
+                corpus_texts.push((f.file_stem().unwrap().to_string_lossy().to_string(), t));
+            }
+        }
+    }
     let mut token_cmp: Vec<bool> = vec![];
     let push = |reqs: &mut Vec<String>, expect: &mut Vec<(String, String)>, token_cmp: &mut Vec<bool>, key: String, req: String, real: String, tok: bool| {
         reqs.push(req);
@@ -1038,6 +1093,68 @@ pub fn text(ctx: &Ctx) -> Report {
                 }
             }
             push(&mut reqs, &mut expect, &mut token_cmp, format!("text:parse-mut:{}", short_key(&text)), format!("text-parse {}", wire::hex(text.as_bytes())), parsed_str(&parsed), false);
+        }
+    }
+
+    // corpus of past failures (texts): both parsers, then the round trip of what was parsed
+    for (name, text) in &corpus_texts {
+        rep.count("corpus-texts");
+        let parsed = real_parse(text);
+        if let Parsed::Panic(m) = &parsed {
+            rep.fail(&format!("text:parse-panic:corpus-{name}"), "uplc::parser::program panics", json!({"text": text}), json!({"panic": m}));
+        }
+        push(&mut reqs, &mut expect, &mut token_cmp, format!("text:parse:corpus-{name}"), format!("text-parse {}", wire::hex(text.as_bytes())), parsed_str(&parsed), false);
+        if let Parsed::Ok(p) = parsed {
+            let pc = p.clone();
+            match guarded(move || pc.to_pretty()) {
+                Ok(s) => match real_parse(&s) {
+                    Parsed::Ok(q) if q.version == p.version && alpha_wire(&q.term) == alpha_wire(&p.term) => rep.count("corpus-roundtrip-ok"),
+                    other => rep.fail(
+                        &format!("text:roundtrip:corpus-{name}"),
+                        "parse(pretty(p)) differs from p",
+                        json!({"program": prog_wire(&p), "pretty": s}),
+                        json!({"parsed": parsed_str(&other)}),
+                    ),
+                },
+                Err(m) => rep.fail(&format!("text:print-panic:corpus-{name}"), "to_pretty panics", json!({"text": text}), json!({"panic": m})),
+            }
+        }
+    }
+
+    // known limits of the token abstraction: spellings in which a peg literal / number matches a proper
+    // prefix of a word.  The real parser accepts them, the model's lexer does not split there.  Measured
+    // and reported, not compared (never printer output; see notes/C15.md).
+    let glued = [
+        "(program 1.0.0 (delayx))",
+        "(program 1.0.0 (lam x (forcex)))",
+        "(program 1.0.0 (constr 1_74))",
+        "(program 1.0.0 (constr 0x))",
+        "(program 1.0.0 (con integer 5--c\n))",
+        "(program 1.0.0 (con (listinteger) []))",
+        "(program 1.0.0 (con data(I 1)))",
+        "(program 1.0.0 (con integer--c\n 5))",
+    ];
+    {
+        // names starting with `--`: accepted by `ident()`, but a comment as soon as a new-line follows
+        let dd = Name { text: "--x".into(), unique: Unique::new(0) };
+        let p = mk_prog(Term::Lambda { parameter_name: Rc::new(dd.clone()), body: Rc::new(Term::Lambda { parameter_name: Rc::new(Name { text: "a_long_enough_name_to_force_a_line_break_in_the_output_of_the_pretty_printer_xxxxxxxxxxxxx".into(), unique: Unique::new(1) }), body: Rc::new(Term::Var(Rc::new(dd))) }) });
+        let pretty = p.to_pretty();
+        match real_parse(&pretty) {
+            Parsed::Ok(q) if alpha_wire(&q.term) == alpha_wire(&p.term) => rep.count("name-dashdash-roundtrip-ok"),
+            _ => rep.count("name-dashdash-known-limitation (name starting with `--` is read as a comment; excluded by WellFormed)"),
+        }
+    }
+    let glued_reqs: Vec<String> = glued.iter().map(|t| format!("text-parse {}", wire::hex(t.as_bytes()))).collect();
+    let glued_model = driver::run(&glued_reqs);
+    for (i, t) in glued.iter().enumerate() {
+        let real = parsed_str(&real_parse(t));
+        if real == glued_model[i] {
+            rep.count("glued-spelling-agree");
+        } else {
+            rep.count("glued-spelling-known-divergence (real accepts, token model rejects)");
+            if !(real.starts_with("ok") && glued_model[i] == "err") {
+                rep.disagree(&format!("text:glued:{i}"), &glued_reqs[i], &real, &glued_model[i]);
+            }
         }
     }
 
